@@ -2,7 +2,7 @@
 # drill.sh <patch.diff> <Cxx> [Cyy …] — apply a seeded change to /repo, run the quick checks of the
 # given properties, undo the change. Prints one verdict line per check.
 set -u
-patch="$1"; shift
+patch="$(readlink -f "$1")"; shift
 cd /verif
 if ! git -C /repo apply --check "$patch" 2>/dev/null; then echo "DRILL: patch does not apply: $patch"; exit 2; fi
 git -C /repo apply "$patch"
